@@ -96,6 +96,9 @@ def run_variant(spec_path, kind):
         for p in spec["props"]:
             rc, rules, so, se = run_check(p, d)
             out[p] = (rc, rules)
+            if rc not in (0, 1, 2):
+                res["error"] = "checker crashed (exit %d): %s" % (rc, se[-1200:])
+                return res
             if rc == 2:
                 res["error"] = "does not compile: " + se[-1500:]
                 res["skipped"] = "variant does not compile on this tree"
@@ -197,6 +200,16 @@ def main():
         json.dump(results, open(a.json, "w"), indent=1)
     if a.mode == "one" and results and results[0].get("skipped"):
         sys.exit(3)
+    if a.mode == "all" and not only and not a.name:
+        # keep the per-case outcome of this full run (derived data, not committed): a thorough check on the
+        # same tree may reuse it instead of re-running its share of the corpus (VERIF_REUSE_SELFTEST=1)
+        sys.path.insert(0, HERE)
+        from engine.facts import source_hash as _sh
+
+        os.makedirs(os.path.join(HERE, ".cache"), exist_ok=True)
+        json.dump({"source_hash": _sh(REPO), "at": __import__("time").strftime("%Y-%m-%dT%H:%M:%SZ", __import__("time").gmtime()),
+                   "results": [{k: r.get(k) for k in ("file", "kind", "ok", "skipped", "known_miss")} for r in results]},
+                  open(os.path.join(HERE, ".cache", "selftest_results.json"), "w"), indent=1)
     if a.mode == "all" and npass == len(results) and not only and not a.name:
         # the corpus was validated on exactly this tree: thorough runs on it are strict
         sys.path.insert(0, HERE)
